@@ -10,10 +10,10 @@ N == Len(Traces)
 
 F(e, f, d) == IF f \in DOMAIN e THEN e[f] ELSE d     \* optional field
 InSeq(s, x) == \E i \in 1..Len(s) : s[i] = x
-RemoveLast(s, x) ==
+DropLast(s, x) ==
   LET idx == CHOOSE i \in 1..Len(s) : s[i] = x /\ \A j \in (i + 1)..Len(s) : s[j] # x
   IN SubSeq(s, 1, idx - 1) \o SubSeq(s, idx + 1, Len(s))
-RemoveFirst(s, x) ==
+DropFirst(s, x) ==
   LET idx == CHOOSE i \in 1..Len(s) : s[i] = x /\ \A j \in 1..(i - 1) : s[j] # x
   IN SubSeq(s, 1, idx - 1) \o SubSeq(s, idx + 1, Len(s))
 Without(s, x) == SelectSeq(s, LAMBDA y : y # x)
